@@ -175,6 +175,8 @@ def checks(f, errs=None, include_panics=False):
         op = CMP[rv[1]]
         a = subject_name(f, defs, rv[2])
         c = subject_name(f, defs, rv[3])
+        a_deep = subject_name(f, defs, rv[2], use_names=False)
+        c_deep = subject_name(f, defs, rv[3], use_names=False)
         # which edge rejects?
         for v, s in [(x[0], x[1]) for x in t[2]] + [("otherwise", t[3])]:
             if not leads_to_error(f, s, errs):
@@ -187,12 +189,14 @@ def checks(f, errs=None, include_panics=False):
                 truth = not truth
             cond_op = op if truth else NEG[op]
             subj, other = a, c
+            sd, od = a_deep, c_deep
             subj_o, other_o = rv[2], rv[3]
             if isinstance(subj, int) and not isinstance(other, int):
                 subj, other, cond_op = other, subj, FLIP[cond_op]
+                sd, od = od, sd
                 subj_o, other_o = other_o, subj_o
             out.append(dict(subject=subj, op=cond_op, other=other, pos=cmp_st[3], bb=b, fail_edge=(b, s, v), macro=cmp_st[4],
-                            subject_local=op_local(subj_o), other_local=op_local(other_o)))
+                            subject_local=op_local(subj_o), other_local=op_local(other_o), deep=norm(sd, cond_op, od)))
     return out
 
 
@@ -234,3 +238,92 @@ def checks_deep(prog, f, depth=2, _seen=None):
             d["other_local"] = None
             out.append(d)
     return out
+
+
+import re as _re
+
+_TOK = _re.compile(r"ret:[A-Za-z_0-9]+|\.[A-Za-z_][A-Za-z_0-9]*|[A-Za-z_][A-Za-z_0-9]*|\d+|\S")
+
+
+def shape(cond):
+    """the condition with the names of local variables wildcarded: field names, `len`, `ret:callee`, `argN`, constants and
+    operators are kept, every other identifier becomes `_` (so renaming a local does not change the shape)"""
+    out = []
+    for t in _TOK.findall(cond):
+        if t.startswith("ret:"):
+            out.append(t)
+        elif t[0].isalpha() or t[0] == "_":
+            if t in ("len",) or _re.fullmatch(r"arg\d+", t):
+                out.append(t)
+            else:
+                out.append("_")
+        else:
+            out.append(t)
+    return "".join(out)
+
+
+def match_table(cs, wanted, deep_ref=None):
+    """cs: checks of one function (dicts); wanted: list of (cond, mincount).  Returns {cond: matched checks}.
+    deep_ref: {cond: [definition-resolved forms recorded when the table was confirmed]} - a fourth way to recognise a check whose
+    local variables were renamed (the deep form does not contain local names).
+    1. exact normalised text; 2. same operator and same integer bound, unique; 3. same shape with local names wildcarded, provided
+    the number of unmatched checks of that shape equals the number of unmatched table entries of that shape (no guessing)."""
+    texts = [norm(c["subject"], c["op"], c["other"]) for c in cs]
+    used = set()
+    res = {}
+    for cond, n in wanted:
+        idx = [i for i, t in enumerate(texts) if t == cond and i not in used][:max(n, 1) if n else 0]
+        idx = [i for i, t in enumerate(texts) if t == cond and i not in used]
+        if len(idx) >= n:
+            res[cond] = [cs[i] for i in idx]
+            used.update(idx)
+    for cond, n in wanted:
+        if cond in res:
+            continue
+        parts = cond.rsplit(" ", 2)
+        if len(parts) == 3 and parts[2].lstrip("-").isdigit() and abs(int(parts[2])) >= 2:
+            idx = [i for i, c in enumerate(cs) if i not in used and norm("_", c["op"], c["other"]) == "_ %s %s" % (parts[1], parts[2])]
+            if len(idx) == n:
+                res[cond] = [cs[i] for i in idx]
+                used.update(idx)
+    pend = [(cond, n) for cond, n in wanted if cond not in res]
+    by_shape = {}
+    for cond, n in pend:
+        by_shape.setdefault(shape(cond), []).append((cond, n))
+    for sh, ents in by_shape.items():
+        idx = [i for i, t in enumerate(texts) if i not in used and shape(t) == sh]
+        need = sum(n for _, n in ents)
+        if len(idx) == need and need > 0 and not _re.fullmatch(r"[_ <>=!]+", sh):
+            k = 0
+            for cond, n in ents:
+                res[cond] = [cs[i] for i in idx[k:k + n]]
+                k += n
+            used.update(idx)
+    if deep_ref:
+        for cond, n in wanted:
+            if cond in res:
+                continue
+            want_deep = deep_ref.get(cond) or []
+            idx = [i for i, c in enumerate(cs) if i not in used and c.get("deep") in want_deep]
+            if len(idx) >= n and n > 0:
+                res[cond] = [cs[i] for i in idx[:max(n, len(idx))]]
+                used.update(idx)
+    return res
+
+
+import json as _json
+import os as _os
+
+_DEEP = None
+
+
+def deep_ref(table, fn_path):
+    """recorded definition-resolved forms for the entries of `table` (limit / icc / jbr / coding) in function fn_path"""
+    global _DEEP
+    if _DEEP is None:
+        p = _os.path.join(_os.path.dirname(_os.path.dirname(_os.path.abspath(__file__))), "tables", "check_deep.json")
+        try:
+            _DEEP = _json.load(open(p))
+        except (OSError, ValueError):
+            _DEEP = {}
+    return _DEEP.get(table, {}).get(fn_path, {})
